@@ -199,7 +199,23 @@ class BaseNode(Node):
         if isinstance(nodes, str):   # block import
             node.value_raw = nodes
         else:                        # node import
-            node.value_raw = nodes[0].value_raw
+            node.value_raw = self._current_raw(nodes[0])
             if not node.units_raw:
                 node.units_raw = nodes[0].units_raw
+
+    @staticmethod
+    def _current_raw(ref):
+        """ Text of the value a referenced node has now (not of its definition)
+        """
+        if not isinstance(getattr(ref,'value',None), Type) or ref.value.value is None:
+            return ref.value_raw
+        value = ref.value.value
+        if isinstance(value, (list, np.ndarray)):
+            return json.dumps(np.asarray(value).tolist())
+        elif isinstance(value, (bool, np.bool_)):
+            return Keyword.TRUE if value else Keyword.FALSE
+        elif isinstance(value, (float, np.floating)) and float(value).is_integer() and abs(value)<1e15:
+            return str(int(value))
+        else:
+            return str(value)
         
